@@ -469,14 +469,14 @@ Section Soundness.
   (* ---- Segmentation: what reaches the consumer ------------------------------------------------------- *)
   Definition gseg (j : N) : list N := gsegment f (Z.of_N j).
 
-  Theorem serve_prefix : forall ws dn script chunks ok,
+  Theorem serve_prefix : forall ws dn script chunks res,
     node_inv dn ->
     Forall (fun w => (w_segnum w < d_num_segments (calculate_sizes (ef_size f) (ef_k f) (ef_segsize f)))%N) ws ->
-    serve c dn ws script = (chunks, ok) ->
+    serve c dn ws script = (chunks, res) ->
     (exists rest, apply_writes gseg ws = concat chunks ++ rest) /\
-    (ok = true -> concat chunks = apply_writes gseg ws).
+    (res = None -> concat chunks = apply_writes gseg ws).
   Proof.
-    induction ws as [|w ws IH]; intros dn script chunks ok Hinv Hws Hs; cbn [ImmVerify.serve] in Hs.
+    induction ws as [|w ws IH]; intros dn script chunks res Hinv Hws Hs; cbn [ImmVerify.serve] in Hs.
     - inversion Hs. subst. split; [exists []; reflexivity|reflexivity].
     - destruct (script (w_segnum w)) as [tries ord].
       destruct (fetch_segment c dn (Z.of_N (w_segnum w)) tries ord) as [dn1 [segment|e]] eqn:Ef.
@@ -484,7 +484,7 @@ Section Soundness.
         inversion Hws as [|w' ws' Hw Hws']. subst.
         assert (Hj : 0 <= Z.of_N (w_segnum w) < nseg) by (unfold nseg; lia).
         rewrite (V1 segment eq_refl Hj) in Hs.
-        destruct (serve c dn1 ws script) as [chunks1 ok1] eqn:Es1.
+        destruct (serve c dn1 ws script) as [chunks1 res1] eqn:Es1.
         destruct (IH _ _ _ _ I1 Hws' Es1) as [[rest Hr] Hok].
         inversion Hs. subst. unfold apply_writes in *. cbn [map concat]. fold (gseg (w_segnum w)).
         split.
